@@ -318,6 +318,13 @@ func callbackKey(v ssa.Value) string {
 		}
 		return ""
 	}
+	if g, ok := u.X.(*ssa.Global); ok && g.Pkg != nil {
+		// a function-valued package variable (an implementation switch such as transforms32.YCbCrToGray)
+		if _, isFn := g.Type().(*types.Pointer).Elem().Underlying().(*types.Signature); isFn {
+			return relPkg(g.Pkg.Pkg.Path()) + "." + g.Name()
+		}
+		return ""
+	}
 	fa, ok := u.X.(*ssa.FieldAddr)
 	if !ok {
 		return ""
@@ -995,6 +1002,17 @@ func (c *Ctx) poolCall(fr *Frame, st *State, reach string, callee *ssa.Function,
 		ref := c.fresh("pooled", "Int")
 		c.assume("true", fmt.Sprintf("(and (> %s 0) (<= %s %s))", ref, ref, c.top))
 		c.pooled = append(c.pooled, ref)
+		// exclusively owned: the object is none of the objects the caller passed in
+		for _, a := range c.entryArgs {
+			switch v := a.(type) {
+			case IfaceV:
+				c.assume("true", fmt.Sprintf("(not (= %s %s))", ref, v.Ref))
+			default:
+				if r, ok := ptrAsRef(a); ok && r.S == "Int" {
+					c.assume("true", fmt.Sprintf("(not (= %s %s))", ref, r.T))
+				}
+			}
+		}
 		if hasInv {
 			c.assume(reach, c.evalBool(invEnv(ref), inv.Expr, inv.Text))
 		}
